@@ -63,7 +63,7 @@ class C13(object):
                    'renaming targets/replacements are identifier-shaped non-keywords',
                    'the reduction caller removes all blanks from the rewritten equation: expressions with keyword '
                    'operators or string literals (not valid in equation blocks anyway) are not fed to that sub-check']
-    required_counters = ('list_tokens.judged', 'lookup.judged', 'replace_token.judged', 'eval.judged', 'block_rename.judged', 'reduction_rename.judged', 'reduction_rename.targeted',
+    required_counters = ('list_tokens.judged', 'lookup.judged', 'replace_token.judged', 'eval.judged', 'block_rename.judged', 'reduction_rename.judged', 'reduction_rename.targeted', 'block_rename.second_pass_judged',
                          'insitu.replace_token_from_lookup.post_evaluated')
 
     def n_cases(self, tier):
@@ -207,6 +207,26 @@ class C13(object):
                 rec.violate('block_rename_not_applied_exactly_once',
                             {'equation': k, 'lookup': lk, 'map_kind': kind, 'before': [v for _, v in before[k]],
                              'got': [v for _, v in got], 'expected': [v for _, v in exp]})
+                return
+        # a second renaming pass over the SAME objects, asking for the names the first pass introduced
+        introduced = sorted(set(v for _, v in monitors.token_stream(blk['lhs1'].RHS()) if v in set(lk.values())))
+        if not introduced:
+            return
+        lk2 = {n: 'second_%d' % i for i, n in enumerate(introduced)}
+        before2 = {k: monitors.token_stream(blk[k].RHS()) for k in ('lhs1', 'lhs2')}
+        try:
+            blk.ReplaceTokensFromLookup(dict(lk2))
+        except Exception as e:
+            rec.violate('block_rename_raised', {'lookup': lk2, 'second_pass': True, 'err': repr(e)})
+            return
+        rec.count('block_rename.second_pass_judged')
+        for k in ('lhs1', 'lhs2'):
+            exp = [lk2[v] if (t == _t.NAME and v in lk2) else v for t, v in before2[k]]
+            got = [v for _, v in monitors.token_stream(blk[k].RHS())]
+            if got != exp:
+                rec.violate('block_rename_not_applied_exactly_once',
+                            {'equation': k, 'first_lookup': lk, 'second_lookup': lk2, 'before_second_pass': [v for _, v in before2[k]],
+                             'got': got, 'expected': exp})
                 return
 
     def reduction_rename(self, rng, rec, text, g, names):
